@@ -41,7 +41,8 @@ def getitemGo : List Sel → List (Core α) → Nat → List (Core α) → List 
     let r := match acc with | last :: _ => last.r1 | [] => 1
     getitemGo ss cs (i+1) (eyeCore r :: acc) (i :: ex)
   | _ :: _, [], _, _, _ => Option.none            -- index past the last core (IndexError)
-  | s :: ss, c :: cs, i, acc, ex => getitemGo ss cs (i+1) (selRow c s :: acc) ex
+  | .int k :: ss, c :: cs, i, acc, ex => getitemGo ss cs (i+1) (selRow c (.int k) :: acc) ex
+  | s :: ss, c :: cs, i, acc, ex => getitemGo ss cs (i+1) (selRow c s :: acc) (i :: ex)
 
 /-- same for TT-matrices: pairs (row selector, column selector); `None` must come in pairs -/
 def getitemGoM : List (Sel × Sel) → List (Core α) → Nat → List (Core α) → List Nat →
@@ -52,18 +53,33 @@ def getitemGoM : List (Sel × Sel) → List (Core α) → Nat → List (Core α)
     let r := match acc with | last :: _ => last.r1 | [] => 1
     getitemGoM ss cs (i+1) (eyeCore r :: acc) (i :: ex)
   | _ :: _, [], _, _, _ => Option.none
-  | (s1, s2) :: ss, c :: cs, i, acc, ex => getitemGoM ss cs (i+1) (selCol (selRow c s1) s2 :: acc) ex
+  | (.int k1, .int k2) :: ss, c :: cs, i, acc, ex =>
+    getitemGoM ss cs (i+1) (selCol (selRow c (.int k1)) (.int k2) :: acc) ex
+  | (s1, s2) :: ss, c :: cs, i, acc, ex =>
+    getitemGoM ss cs (i+1) (selCol (selRow c s1) s2 :: acc) (i :: ex)
 
-/-- `x[index]` for a tuple index on a TT-tensor: slice, then `reduce_dims(exclude)` -/
-def getitem (sel : List Sel) (cs : List (Core α)) : Option (List (Core α)) :=
+/-- `x[index]` for a tuple index on a TT-tensor: slice, then `reduce_dims(exclude)` where sliced
+    and `None` positions are excluded (only integer-indexed modes are removed).  The flag is the
+    "all indices were integers → return a scalar" decision. -/
+def getitem (sel : List Sel) (cs : List (Core α)) : Option (List (Core α) × Bool) :=
   match getitemGo sel cs 0 [] [] with
   | Option.none => Option.none
-  | some (cs', ex) => some (reduceDims (fun i => ex.contains i) cs')
+  | some (cs', ex) => some (reduceDims (fun i => ex.contains i) cs', ex.isEmpty)
 
-def getitemM (sel : List (Sel × Sel)) (cs : List (Core α)) : Option (List (Core α)) :=
+def getitemM (sel : List (Sel × Sel)) (cs : List (Core α)) : Option (List (Core α) × Bool) :=
   match getitemGoM sel cs 0 [] [] with
   | Option.none => Option.none
-  | some (cs', ex) => some (reduceDims (fun i => ex.contains i) cs')
+  | some (cs', ex) => some (reduceDims (fun i => ex.contains i) cs', ex.isEmpty)
+
+/-- expansion of a leading (`mode = 1`) or trailing (`mode = 2`) `Ellipsis` into full slices
+    (`(slice(None),) * (len(N) - len(index) + 1 + num_none)`); `sel` is the index tuple without the
+    Ellipsis entry -/
+def expandEll (mode : Nat) (sel : List Sel) (cs : List (Core α)) : List Sel :=
+  let numNone := (sel.filter (fun s => s == Sel.none)).length
+  let cnt := cs.length + numNone - sel.length
+  if mode = 1 then (cs.take cnt).map (fun c => Sel.slice 0 1 c.m) ++ sel
+  else if mode = 2 then sel ++ (cs.drop (cs.length - cnt)).map (fun c => Sel.slice 0 1 c.m)
+  else sel
 
 /-! ### `cat` -/
 
